@@ -111,7 +111,12 @@ def formula(nin, **kw):
 
 def feeds_largest_chunks(scenario, **kw):
     """the real op construction projects: reserved + sum over EVERY input of chunkmem*(1+read) + extra + largest output chunk*(1+write)"""
-    fn, _ = c01.SCENARIOS[scenario] if scenario in c01.SCENARIOS else c01.EXTRA_SCENARIOS[scenario]
+    if scenario in c01.SCENARIOS or scenario in c01.EXTRA_SCENARIOS:
+        fn, _ = c01.SCENARIOS[scenario] if scenario in c01.SCENARIOS else c01.EXTRA_SCENARIOS[scenario]
+    else:
+        from harness import c01b
+
+        fn, _ = c01b.SCENARIOS[scenario]
     out = _capture(fn, kw)
     if out is None:
         return
@@ -165,7 +170,12 @@ def ledger_bound(scenario, optimize, **kw):
     from cubed.primitive.memory import BufferCopies
     from cubed.storage.virtual import VirtualArray
 
-    fn, _ = c01.SCENARIOS[scenario] if scenario in c01.SCENARIOS else c01.EXTRA_SCENARIOS[scenario]
+    if scenario in c01.SCENARIOS or scenario in c01.EXTRA_SCENARIOS:
+        fn, _ = c01.SCENARIOS[scenario] if scenario in c01.SCENARIOS else c01.EXTRA_SCENARIOS[scenario]
+    else:
+        from harness import c01b
+
+        fn, _ = c01b.SCENARIOS[scenario]
     blk = [kw.pop("blk0"), kw.pop("blk1")]
     out = _capture(fn, kw)
     if out is None:
@@ -306,6 +316,15 @@ def obligations(tier):
                          bounds=f"as C01, sizes <= {N}; one task of every op (fused ops when optimize=1) at a symbolic block coordinate; read/write copies 1/1",
                          outside="LAPACK buffers, codec internals, interpreter overhead", stubs=["anp Ledger", "LedgerArray reads/writes"],
                          witness_rule=lambda m: m.get("n", m.get("n1", 0)) >= 2))
+    from harness import c01b
+
+    for nm in ("index[int-array,one-element-per-block]",):
+        _, vs = c01b.SCENARIOS[nm]
+        for opt in (0, 1):
+            o.append(Obl(f"ledger[{nm},optimize={opt}]", (lambda nm, opt: lambda **kw: ledger_bound(nm, opt, **kw))(nm, opt), vs(N) + [("blk0", 0, 6), ("blk1", 0, 0)],
+                         allowed=c01.ALLOWED + (AssertionError,), setup=c01.setup, functions=fns, wall_s=wall,
+                         bounds="x[idx] gathering one element from each of k <= 6 blocks of c <= 6 elements into ONE output chunk: how many input blocks a selection task holds at once",
+                         outside="LAPACK buffers, codec internals, interpreter overhead", stubs=["anp Ledger"], witness_rule=lambda m: m["k"] >= 4))
     for nm in ("var-float32[1d]", "var-float64[1d]", "mean-float32[1d]", "sum-int8[1d]"):
         _, vs = c01.EXTRA_SCENARIOS[nm]
         o.append(Obl(f"ledger[{nm},optimize=0]", (lambda nm: lambda **kw: ledger_bound(nm, 0, **kw))(nm), vs(N) + [("blk0", 0, 48), ("blk1", 0, 0)],
